@@ -1,6 +1,7 @@
 import TypifyModel.Proofs.C01
 import TypifyModel.Proofs.C01Findings
 import TypifyModel.Proofs.Dispatch
+import TypifyModel.Proofs.DispatchFuel
 open TypifyModel.C01
 #print axioms wf_compiles
 #print axioms wf_unique_items
@@ -29,3 +30,6 @@ open TypifyModel.C01
 #print axioms TypifyModel.C01.wf_deref_finite
 #print axioms TypifyModel.Dispatch.fragment_never_todo
 #print axioms TypifyModel.Dispatch.todo_witnesses
+#print axioms TypifyModel.Dispatch.again_decreases
+#print axioms TypifyModel.Dispatch.resolve_three_suffices
+#print axioms TypifyModel.Dispatch.resolve_total
